@@ -10,6 +10,8 @@ CONSTANTS
   Plus = "logaddexp"
   Times = "add"
   LeafKind = "log"
+  CopyCap = 99
+  ElimAll = FALSE
   Param = TRUE
   Tag = "sp_logaddexp_param"
 INVARIANT Inv_OracleInputs
